@@ -818,6 +818,59 @@ func main() {
 				}
 			}
 		})
+
+		// The io.Reader contract on hostile text: every Read of the message reader returns a count
+		// within 0..len(p), whatever the fragments look like (sequences cut by fragment boundaries,
+		// empty fragments, invalid bytes) and however the caller's buffer size changes from one
+		// Read to the next. A larger count makes io.ReadAll, bytes.Buffer.ReadFrom and the
+		// library's own read helpers slice past their buffers.
+		r.Part("E6-read-counts-stay-within-the-buffer", func(t *explore.T) {
+			units := [][]byte{[]byte("a"), {0xC3, 0xA9}, {0xE2, 0x82, 0xAC}, {0xF0, 0x9F, 0x98, 0x80}, {0xE2, 0x82}, {0xF0, 0x9F}, {0x80}, {0xFF}, []byte("abcdefghijklmnopqrstuvwxyz0123456789")}
+			var msgs [][]byte
+			for _, u := range units {
+				msgs = append(msgs, u)
+				for _, v := range units {
+					msgs = append(msgs, append(append([]byte{}, u...), v...))
+				}
+			}
+			ds := []drivers.Driver{drivers.ReaderAlternatingBuffers(), drivers.ReaderLoop(3), drivers.ReadMessageLoop(), drivers.ReadDataLoop("Generic"), drivers.NextReaderLoop()}
+			t.Par(len(msgs), func(mi int) {
+				msg := msgs[mi]
+				for a := 0; a <= len(msg); a++ {
+					for _, tailKind := range []string{"final-fragment", "empty-final-fragment", "empty-fragment-then-final"} {
+						for _, side := range []streams.Side{streams.Server, streams.Client} {
+							for _, d := range ds {
+								a, tailKind, side, d := a, tailKind, side, d
+								t.Do(func() string {
+									return fmt.Sprintf("%s text %x | %x (%s) driver=%s", side, msg[:a], msg[a:], tailKind, d.Name)
+								}, func() *explore.Fail {
+									fr := func(i int, op byte, fin bool, p []byte) streams.Frame {
+										return streams.Frame{H: refmodel.Hdr{Fin: fin, Op: op, Masked: side == streams.Server, Mask: streams.Masks[i%3]}, Payload: p}
+									}
+									frames := []streams.Frame{fr(0, 1, false, msg[:a])}
+									switch tailKind {
+									case "final-fragment":
+										frames = append(frames, fr(1, 0, true, msg[a:]))
+									case "empty-final-fragment":
+										frames = append(frames, fr(1, 0, false, msg[a:]), fr(2, 0, true, nil))
+									default:
+										frames = append(frames, fr(1, 0, false, nil), fr(2, 0, true, msg[a:]))
+									}
+									data, _ := streams.Wire(append(frames, fr(3, 2, true, []byte("next"))))
+									var res drivers.Result
+									d.Run(env.NewSrc(data), side, drivers.Cfg{CheckUTF8: true}, &res)
+									if res.ContractBroken {
+										return explore.Failf("Read-count-outside-buffer:"+d.Name, "%v", res.Err)
+									}
+									t.Outcome("within-buffer")
+									return nil
+								})
+							}
+						}
+					}
+				}
+			})
+		})
 	})
 }
 
